@@ -148,6 +148,10 @@ def strip_lean_comments(src):
         elif src.startswith("--", i):
             while i < n and src[i] != "\n":
                 i += 1
+        elif src.startswith("'\"'", i):
+            i += 3
+        elif src.startswith("'\\\"'", i):
+            i += 4
         elif src[i] == '"':
             j = i + 1
             while j < n and src[j] != '"':
@@ -273,7 +277,9 @@ class Result:
         self.total = 0
 
 
-def compare(rows, mrows):
+def compare(rows, mrows, known_ids=()):
+    """inK column: `-`/`0`/empty = not in a known-finding class; otherwise the id of the known finding whose class K the case
+    falls in. A spec violation is accepted as known only if that id is listed (status finding) AND impl == model."""
     res = Result()
     m = {r[0]: r for r in mrows}
     for r in rows:
@@ -293,7 +299,7 @@ def compare(rows, mrows):
         else:
             res.disagree.append((cid, inp, impl, model))
         if spec.startswith("viol"):
-            if ink == "1" and same:
+            if ink in known_ids and same:
                 res.known.append((cid, inp, impl, model, spec, ink))
             else:
                 res.spec_viol.append((cid, inp, impl, model, spec, ink))
@@ -439,7 +445,7 @@ def standard_check(ctx, *, harness_bin, n_quick, n_thorough, nontrivial, kind="h
     res = Result()
     if model_ok:
         mrc, mrows, merr = run_model(prop, rows)
-        res = compare(rows, mrows)
+        res = compare(rows, mrows, {e["id"] for e in ctx.known_findings()})
         if mrc != 0:
             ctx.violation({"kind": "model-driver-failed", "stderr": merr[-3000:]}, no_input=True)
     # coverage
@@ -456,10 +462,18 @@ def standard_check(ctx, *, harness_bin, n_quick, n_thorough, nontrivial, kind="h
     ctx.cov["samples"] = [{"input": r_[1], "impl": r_[2][:300]} for r_ in rows[:3] + rows[len(rows)//2:len(rows)//2+2]]
     extra.update({"disagreements": len(res.disagree), "spec_violations": len(res.spec_viol),
                   "in_known_class": len(res.known), "out_of_model": res.out_of_model, "corpus_cases": len(crow)})
-    # known findings
-    if known_replay:
-        for e in ctx.known_findings():
+    # known findings: the witness of every listed finding is a corpus row with id `k:<finding id>`; the line is printed
+    # when that witness still fails exactly as the model (which transcribes the defect) predicts
+    for e in ctx.known_findings():
+        if known_replay:
             known_replay(ctx, e, bindir)
+            continue
+        hits = [k for k in res.known if k[5] == e["id"]]
+        wit = [k for k in hits if k[0] == "k:" + e["id"]]
+        if wit:
+            ctx.print_known(e, f"{e.get('summary', '')} [witness {wit[0][1][:120]} still fails as recorded; {len(hits)} case(s) of this class in this run]")
+        elif hits:
+            ctx.print_known(e, f"{e.get('summary', '')} [{len(hits)} case(s) of this class in this run; add the witness to corpus/{prop}/ as k:{e['id']}]")
     # verdict
     if res.spec_viol:
         v = res.spec_viol[0]
@@ -502,7 +516,7 @@ def standard_replay(ctx, path, harness_bin, kind="harness"):
         sys.exit(1)
     _, rows, _ = run_harness(bindir, harness_bin, ["replay"], stdin="".join(f"{a}\t{b}\n" for a, b in cases))
     _, mrows, _ = run_model(ctx.prop, rows)
-    res = compare(rows, mrows)
+    res = compare(rows, mrows, {e["id"] for e in ctx.known_findings()})
     for r_, m_ in zip(rows, mrows):
         print("input:", r_[1])
         print("  impl :", r_[2])
